@@ -14,14 +14,17 @@ def jobs(tier):
     q = tier == "quick"
     out = []
     for where in range(4):
-        for x in range(5):
+        for x in ((1, 2, 3) if q else range(5)):
+            pre = ["0 <= l < 5", "0 <= r < 5", "0 <= al < 5", "0 <= p1 < 5", "0 <= p2 < 5", "0 <= y < 5", "0 <= z < 5", "l != r and l != al and r != al", "p1 != p2"]
+            if q:
+                # header names fixed (a, b, c); the solver chooses the parameter names (collisions with any of them, or a
+                # free name) and which roles supply the index and the numeric argument
+                pre += ["l == 0", "r == 1", "al == 2", "p1 <= 3", "p2 <= 3", "y != 1 and y != 2", "z != 1 and z != 2"]
             out.append(CH(name=f"c07_scope_w{where}_x{x}", base="c07_scope", func=f"{H}:c07_scope",
                           params=[("l", "int"), ("r", "int"), ("al", "int"), ("p1", "int"), ("p2", "int"), ("y", "int"), ("z", "int")],
-                          pre=["0 <= l < 5", "0 <= r < 5", "0 <= al < 5", "0 <= p1 < 5", "0 <= p2 < 5", "0 <= y < 5", "0 <= z < 5",
-                               "l != r and l != al and r != al", "p1 != p2"] + (["l == 0", "r <= 2"] if q else []),
-                          fixed={"where": where, "x": x}, timeout=600 if q else 2400,
+                          pre=pre, fixed={"where": where, "x": x}, timeout=600 if q else 2400,
                           functions=["Builder.build_gate", "GateMemoizer._make_gate_memo_key", "Builder.build_macro", "rebuild_macro_in_context", "Builder.build_array_item",
-                                     "expand_macros", "GateReplacer.visit_NamedQubit"],
-                          note="impl_meaning(build(program)) == lexical-scoping reference, also after expand_macros; the main-body statement means the same "
-                               "with and without the macros (non-interference); kind errors arising by substitution are JaqalErrors"))
+                                     "expand_macros", "GateReplacer.visit_NamedQubit", "fill_in_let"],
+                          note="impl_meaning(build(program)) == lexical-scoping reference, also after expand_macros and after fill_in_let (rebuild); the main-body "
+                               "statement means the same with and without the macros (non-interference); kind errors arising by substitution are JaqalErrors"))
     return out
